@@ -803,14 +803,14 @@ class Parser:
         left = self.e2()
         if self.accept('plusassign'):
             operator = self.create_node(SymbolNode, self.previous)
-            value = self.e1()
+            value = self.operand(self.e1())
             if not isinstance(left, IdNode):
                 raise ParseException('Plusassignment target must be an id.', self.getline(), left.lineno, left.colno)
             assert isinstance(left.value, str)
             return self.create_node(PlusAssignmentNode, left, operator, value)
         elif self.accept('assign'):
             operator = self.create_node(SymbolNode, self.previous)
-            value = self.e1()
+            value = self.operand(self.e1())
             if not isinstance(left, IdNode):
                 raise ParseException('Assignment target must be an id.',
                                      self.getline(), left.lineno, left.colno)
@@ -823,12 +823,12 @@ class Parser:
 
             qm_node = self.create_node(SymbolNode, self.previous)
             self.in_ternary = True
-            trueblock = self.e1()
+            trueblock = self.operand(self.e1())
             self.expect('colon')
             colon_node = self.create_node(SymbolNode, self.previous)
-            falseblock = self.e1()
+            falseblock = self.operand(self.e1())
             self.in_ternary = False
-            return self.create_node(TernaryNode, left, qm_node, trueblock, colon_node, falseblock)
+            return self.create_node(TernaryNode, self.operand(left), qm_node, trueblock, colon_node, falseblock)
         return left
 
     def operand(self, node: BaseNode) -> BaseNode:
